@@ -380,8 +380,31 @@ def run_pairs(ctx, name, rng, quick, with_cross=True):
     return r
 
 
+def run_tlaps(ctx, name, module):
+    """discharge the proof obligations of a TLAPS module (an unbounded complement to the bounded TLC runs)"""
+    import time as _t
+    t0 = _t.time()
+    d = os.path.join(ctx.scratch, "tlaps")
+    os.makedirs(d, exist_ok=True)
+    shutil.copy(os.path.join(ctx.spec, module + ".tla"), d)
+    try:
+        p = subprocess.run(["tlapm", "--threads", str(min(NCPU, 8)), module + ".tla"], cwd=d, capture_output=True, text=True, timeout=600)
+    except (OSError, subprocess.TimeoutExpired) as e:
+        ctx.notes.append("%s: tlapm not run (%s)" % (name, e))
+        return
+    out = p.stdout + p.stderr
+    import re as _re
+    m = _re.search(r"All (\d+) obligations? proved", out)
+    if not m:
+        raise Infra("%s: TLAPS did not prove %s:\n%s" % (name, module, out[-2000:]))
+    ctx.stages.append({"stage": name, "kind": "TLAPS proof (unbounded: arbitrary family table)", "module": module,
+                       "obligations_proved": int(m.group(1)), "wall_s": round(_t.time() - t0, 1)})
+    log("[%s] %s: all %s proof obligations discharged by tlapm" % (ctx.prop, name, m.group(1)))
+
+
 def c02(ctx):
     rng = random.Random(ctx.seed)
+    run_tlaps(ctx, "matchsym-proof", "MatchSym")
     r = run_pairs(ctx, "pairs", rng, quick=ctx.tier != "thorough")
     ctx.drive("trace", "single", 1500 if ctx.tier == "thorough" else 400)
     ctx.validate_trace("trace")
@@ -1245,6 +1268,8 @@ def setup():
         ctx.build()
         ctx.export()
         for m in sorted(glob.glob(os.path.join(ctx.spec, "*.tla"))):
+            if os.path.basename(m) == "MatchSym.tla":
+                continue   # a TLAPS module (EXTENDS TLAPS): parsed and checked by tlapm, not by SANY/TLC
             p = subprocess.run(["java", "-cp", TLA_CP, "tla2sany.SANY", os.path.basename(m)], cwd=ctx.spec, capture_output=True, text=True)
             if p.returncode != 0 or "Semantic errors" in p.stdout or "*** Errors" in p.stdout or "Could not parse" in p.stdout:
                 log(p.stdout[-3000:])
